@@ -7,6 +7,7 @@
   script-pcall-then / script-call-then   the form through redis.pcall / redis.call followed by a second statement
 Every segment: fresh dataset (forms.PRE, in database `db`; the same key names with other values in database `odb`),
 the form through the path, a dump of both databases.  The segments of a trace are validated independently by TLC."""
+import time
 import forms
 import luadsl as L
 import workloads
@@ -45,7 +46,7 @@ def eval_form(s, c, a, style, pcall, bysha=False):
     return eval_prog(s, c, prog, keys, args, bysha)
 
 
-def run_forms(s, path, db=0, odb=None, subset=None, prefix='form', reset=True):
+def run_forms(s, path, db=0, odb=None, subset=None, prefix='form', reset=True, ttl=None):
     """Emit one segment per form into the session's trace; returns the number of segments."""
     n = 0
     for a in (subset if subset is not None else forms.FORMS):
@@ -55,7 +56,7 @@ def run_forms(s, path, db=0, odb=None, subset=None, prefix='form', reset=True):
             s.close(cid)
         if reset:
             s.trace.emit({'k': 'reset'})
-        s.note('%s/%s/db%d/%s' % (prefix, path, db, forms.form_name(a)))
+        s.note('%s/%s%s/db%d/%s' % (prefix, path, '+ttl-' + ttl if ttl else '', db, forms.form_name(a)))
         c = s.open()
         s.cmd(c, [b'FLUSHALL'])
         if odb is not None:
@@ -66,6 +67,13 @@ def run_forms(s, path, db=0, odb=None, subset=None, prefix='form', reset=True):
             s.cmd(c, [b'SELECT', str(db).encode()])
         for p in forms.PRE:
             s.cmd(c, p)
+        if ttl == 'live':         # every key carries a time to live that lies far ahead
+            for k in forms.PRE_KEYS:
+                s.cmd(c, [b'PEXPIRE', k, b'100000'])
+        elif ttl == 'passed':     # every key's deadline has passed by the time the form runs (swept or not)
+            for k in forms.PRE_KEYS:
+                s.cmd(c, [b'PEXPIRE', k, b'25'])
+            time.sleep(0.04)
         if path == 'direct':
             s.cmd(c, a)
         elif path == 'multi':
